@@ -22,7 +22,9 @@ pub fn needles() -> Vec<Value> {
     v.extend(
         ["1e0", "2.0", "-0.0", "9007199254740992", "9007199254740993", "9007199254740992.0", "18446744073709551615", "1.8446744073709552e19",
          "-1", "-1.0", r#"{"a":1,"b":2}"#, r#"{"b":2,"a":1}"#, r#"{"a":1.0,"b":2}"#, r#"{"a":[1,{"b":null}]}"#, "[1.0]", "[1,2.0]", "[[1]]", r#""é""#,
-         r#""水""#, r#""a😀""#, r#""""#, r#""1""#, "0.1", "1e-1", r#"[{"x":0}]"#, r#"[{"x":-0.0}]"#]
+         r#""水""#, r#""a😀""#, r#""""#, r#""1""#, "0.1", "1e-1", r#"[{"x":0}]"#, r#"[{"x":-0.0}]"#,
+         "18446744073709551614", "9223372036854775807", "9223372036854775808", "-9223372036854775808", "-9223372036854775807", "9007199254740991",
+         "[18446744073709551615]", r#"{"k":[18446744073709551615]}"#, r#"{"k":[18446744073709551000]}"#, "4294967296", "4294967297"]
             .iter()
             .map(|s| al::parse(s)),
     );
@@ -141,6 +143,32 @@ pub fn run(ctx: &mut Ctx) {
             ctx.edge();
             ctx.check("in:L", &op("in", vec![n.clone(), h.clone()]), &null);
             ctx.check("in:V", &json!({"in": [{"var": "n"}, {"var": "h"}]}), &json!({"n": n, "h": h}));
+        }
+    }
+    // substring tests over characters that share UTF-8 lead bytes (é/ü, 水/氵, 😀/😁) and ASCII
+    {
+        let letters = ['a', 'é', 'ü', '水', '氵', '😀', '😁'];
+        let mut strs: Vec<String> = vec![String::new()];
+        for x in letters {
+            strs.push(x.to_string());
+        }
+        for x in letters {
+            for y in letters {
+                strs.push(format!("{}{}", x, y));
+            }
+        }
+        strs.extend(["über".to_string(), "Köln".to_string(), "本語".to_string(), "smile 😁!".to_string(), "aéa".to_string()]);
+        for n in &strs {
+            if !ctx.mine() {
+                continue;
+            }
+            for h in &strs {
+                ctx.edge();
+                ctx.check("in:substring:utf8-neighbours", &json!({"in": [n, h]}), &null);
+                if n.chars().count() == 1 {
+                    ctx.check("in:substring:utf8-neighbours:V", &json!({"in": [{"var": "c"}, {"var": "s"}]}), &json!({"c": n, "s": h}));
+                }
+            }
         }
     }
     // substring tests over S_uni
